@@ -503,6 +503,9 @@ func (r *Run) eval(e *Env, x *SX) *Val {
 	}
 	if h == "=>" && len(args) == 2 {
 		prem := r.evalTerm(e, args[0])
+		if v, known := foldLitBool(prem); known && !v {
+			prem = "false" // decided by the literals alone: the conclusion need not even be evaluable at this site
+		}
 		if prem == "false" {
 			return boolVal("true")
 		}
@@ -615,4 +618,87 @@ func hasToken(s, tok string) bool {
 		}
 	}
 	return false
+}
+
+// foldLitBool decides a boolean term built from and/or/not over comparisons (=, str.prefixof, str.suffixof, str.contains) of string
+// literals; known=false when anything else occurs.
+func foldLitBool(term string) (val, known bool) {
+	if term == "true" {
+		return true, true
+	}
+	if term == "false" {
+		return false, true
+	}
+	xs, err := parseAll("", term, 0)
+	if err != nil || len(xs) != 1 {
+		return false, false
+	}
+	return foldSX(xs[0])
+}
+
+func litStr(x *SX) (string, bool) {
+	if x.IsList() || !x.IsStr {
+		return "", false
+	}
+	return x.Atom, true
+}
+
+func foldSX(x *SX) (bool, bool) {
+	if !x.IsList() {
+		switch x.Atom {
+		case "true":
+			return true, true
+		case "false":
+			return false, true
+		}
+		return false, false
+	}
+	if len(x.List) == 0 || x.List[0].IsList() {
+		return false, false
+	}
+	args := x.List[1:]
+	switch x.List[0].Atom {
+	case "not":
+		if len(args) == 1 {
+			v, k := foldSX(args[0])
+			return !v, k
+		}
+	case "and", "or":
+		isAnd := x.List[0].Atom == "and"
+		allKnown, acc := true, isAnd
+		for _, a := range args {
+			v, k := foldSX(a)
+			if !k {
+				allKnown = false
+				continue
+			}
+			if isAnd && !v {
+				return false, true
+			}
+			if !isAnd && v {
+				return true, true
+			}
+		}
+		return acc, allKnown
+	case "=", "str.prefixof", "str.suffixof", "str.contains":
+		if len(args) != 2 {
+			return false, false
+		}
+		a, ok1 := litStr(args[0])
+		b, ok2 := litStr(args[1])
+		if !ok1 || !ok2 {
+			return false, false
+		}
+		switch x.List[0].Atom {
+		case "=":
+			return a == b, true
+		case "str.prefixof":
+			return strings.HasPrefix(b, a), true
+		case "str.suffixof":
+			return strings.HasSuffix(b, a), true
+		case "str.contains":
+			return strings.Contains(a, b), true
+		}
+	}
+	return false, false
 }
